@@ -260,6 +260,11 @@ func (s *SFTPStore) Prune(ctx context.Context, ids map[ChunkID]struct{}) error {
 		if err != nil {
 			continue
 		}
+		// A file with the name of a chunk that is not where the store keeps that chunk
+		// is not a chunk of this store, leave it alone
+		if !isChunkPath(c.path, path, sID) {
+			continue
+		}
 		// See if the chunk we're looking at is in the list we want to keep, if not
 		// remove it.
 		if _, ok := ids[id]; !ok {
